@@ -82,24 +82,8 @@ let run (input : S.t) (observed : S.t) : S.t * string =
       (try
          let bs = List.map (block_of threads) obs in
          (* a subscriber whose delivery failed receives nothing once the publish that saw the failure has
-            finished its second section (it is removed there at the latest) *)
-         let late =
-           let arr = Array.of_list bs in
-           let bad = ref false in
-           Array.iteri (fun k (i, b) ->
-               match b with
-               | BPub1 (_, _, dl) ->
-                 List.iter (fun ((u, _), ok) ->
-                     if not ok then begin
-                       let k2 = ref (-1) in
-                       Array.iteri (fun x (i', b') -> match b' with BPub2 _ when i' = i && x > k && !k2 < 0 -> k2 := x | _ -> ()) arr;
-                       if !k2 >= 0 then
-                         Array.iteri (fun x (_, b') -> match b' with
-                             | BPub1 (_, _, dl') when x > !k2 -> if List.exists (fun ((u', _), _) -> u' = u) dl' then bad := true
-                             | _ -> ()) arr
-                     end) dl
-               | _ -> ()) arr;
-           !bad in
+            finished its second section (Sched.late_okb; C20_failed_subscriber_receives_nothing_afterwards) *)
+         let late = not (Model.late_okb bs) in
          if fin <> "alldone" then "fails:calls-did-not-finish"
          else if late then "fails:failed-subscriber-still-receives-events"
          else if share then begin
